@@ -55,6 +55,16 @@ func runJson(rng *rand.Rand, n int, out *Out, _ []string) {
 			if b.PairedAccountBlock != nil {
 				out.Count("json:paired")
 			}
+			// the ledger block itself (nom.AccountBlock with its descendants) and the texts it is never printed as
+			nb := &b.AccountBlock
+			if nraw, err := json.Marshal(nb); err == nil {
+				roundtrip(out, nb, nraw, "ledger")
+				if rng.Intn(3) == 0 {
+					nonCanonical(rng, out, nb, membersOf(nraw))
+				}
+			} else {
+				out.Oracle(false, "json-roundtrip-same-hash", Tup(where, "marshal", err.Error()))
+			}
 		}
 		addrs := []types.Address{g.User1.Address, g.User2.Address, g.User3.Address, types.TokenContract, types.PlasmaContract, types.StakeContract}
 		for _, a := range addrs {
@@ -93,6 +103,7 @@ func runJson(rng *rand.Rand, n int, out *Out, _ []string) {
 		_ = hs
 		nd.Stop()
 	}
+	runJsonText(rng, 12*n, out)
 }
 
 // ---- reward / pillar-history pagers need epochs: a node with one-hour epochs, a few hundred momentums
